@@ -1,7 +1,130 @@
+import MesonModel.Quote.Model
 import Driver.Proto
-/- driver commands of area `quote` (stub until the area is built) -/
+/-
+Driver commands of area `quote` (property C03).
+Lists of strings use their own codec here because `['']` and `[]` must differ:
+every item is `x` followed by the code points, items are separated by `,`.
+-/
 namespace Driver.Quote
+open MesonModel.Quote Driver
 
-def handle (cmd : String) (fs : List String) : String := "bad-op"
+def decList (f : String) : List (List Char) :=
+  if f.trimAscii.isEmpty then [] else (f.splitOn ",").map (fun it => decodeStr (it.drop 1).toString)
+
+def encList (l : List (List Char)) : String := ",".intercalate (l.map (fun s => "x" ++ encodeStr s))
+
+def showQErr : QErr → String
+  | .newline => "ERR:newline"
+
+def showQ : Except QErr (List Char) → String
+  | .ok s => "ok:" ++ encodeStr s
+  | .error e => showQErr e
+
+def showQuoting : Quoting → String
+  | .both => "both" | .notShell => "notShell" | .notNinja => "notNinja" | .none => "none"
+
+def parseQuoting : String → Option Quoting
+  | "b" => some .both | "s" => some .notShell | "n" => some .notNinja | "0" => some .none | _ => none
+
+/-- items `<tag>x<codepoints>`; tag `-` = plain `str` (goes through `strToCommandArg`) -/
+def decArgs (f : String) : List CmdArg :=
+  if f.trimAscii.isEmpty then [] else (f.splitOn ",").map (fun it =>
+    let tag := (it.take 1).toString
+    let s := decodeStr (it.drop 2).toString
+    match parseQuoting tag with
+    | some q => ⟨s, q⟩
+    | none => strToCommandArg s)
+
+def parseStyle : String → RspStyle
+  | "msvc" => .msvc | "tasking" => .tasking | _ => .gcc
+
+def showSErr : SErr → String
+  | .noInputs => "ERR:noInputs" | .plainWithMany => "ERR:plainWithMany"
+  | .badInputIndex => "ERR:badInputIndex" | .noOutputs => "ERR:noOutputs"
+  | .badOutputIndex => "ERR:badOutputIndex" | .partInputMany => "ERR:partInputMany"
+  | .partOutputMany => "ERR:partOutputMany"
+
+def showNErr : NErr → String
+  | .badEscape => "ERR:badEscape" | .newlineInValue => "ERR:newlineInValue"
+  | .unterminatedBrace => "ERR:unterminatedBrace" | .cycle => "ERR:cycle"
+
+def showN : Except NErr (List Char) → String
+  | .ok s => "ok:" ++ encodeStr s
+  | .error e => showNErr e
+
+def showShErr : ShErr → String
+  | .unsupported _ => "ERR:unsupported" | .unterminated => "ERR:unterminated"
+  | .emptyCommand => "ERR:emptyCommand" | .operator => "ERR:operator"
+
+/-- values: keys `k1,k2,…` (list codec) and parallel values `o<list of one>` / `m<list>` separated by `;` -/
+def decValues (ks vs : String) : Values :=
+  let keys := decList ks
+  let vals := if vs.trimAscii.isEmpty then [] else (vs.splitOn ";").map (fun v =>
+    let body := decList (v.drop 1).toString
+    if (v.take 1).toString == "m" then TVal.many body else TVal.one (body.headD []))
+  keys.zip vals
+
+def optField (f : String) : Option (List Char) :=
+  if (f.take 1).toString == "s" then some (decodeStr (f.drop 1).toString) else none
+
+def flag (s : String) (i : Nat) : Bool := (s.toList.getD i '0') == '1'
+
+def showWrapped : Wrapped → String
+  | .direct a => "direct:" ++ encList a
+  | .envPrefix a => "env:" ++ encList a
+  | .internalExe o a => "exe:" ++ encList o ++ ";" ++ encList a
+  | .pickled => "pickled"
+
+def zipAssoc (ks vs : String) : List (List Char × List Char) := (decList ks).zip (decList vs)
+
+def handle (cmd : String) (fs : List String) : String :=
+  match cmd, fs with
+  | "shq", [s] => encodeStr (shQuote (decodeStr s))
+  | "nq", [b, s] => showQ (ninjaQuote (b == "1") (decodeStr s))
+  | "rspq", [s] => encodeStr (gccRspQuote (decodeStr s))
+  | "cmdq", [s] => encodeStr (cmdQuote (decodeStr s))
+  | "s2c", [s] => showQuoting (strToCommandArg (decodeStr s)).q
+  | "rule", [style, c, a] =>
+    let r : Rule := { command := decArgs c, args := decArgs a, rspStyle := parseStyle style }
+    showQ r.commandStr ++ ";" ++ showQ r.rspCommandStr ++ ";" ++ showQ r.rspContentStr
+  | "var", [userRsp, style, name, elems] =>
+    showQ (varLine (elemQuoteFunc (userRsp == "1") (parseStyle style)) (decodeStr name) (decList elems))
+  | "esc", [l] => encList (escapeExtraArgs (decList l))
+  | "subst", [c, ks, vs] =>
+    match evalCustomCommand (decList c) (decValues ks vs) with
+    | .ok l => "ok:" ++ encList l
+    | .error e => showSErr e
+  | "substonly", [c, ks, vs] =>
+    match substituteValues (decList c) (decValues ks vs) with
+    | .ok l => "ok:" ++ encList l
+    | .error e => showSErr e
+  | "wrap", [flags, args, eks, evs, cap, feed] =>
+    showWrapped (asMesonExeCmdline {
+      extraPaths := flag flags 0, exeWrapper := flag flags 1, workdir := flag flags 2,
+      canUseEnv := flag flags 3, sepIsSpace := flag flags 4, forceSerialize := flag flags 5,
+      haveEnvProgram := flag flags 6, cmdArgs := decList args, envVars := zipAssoc eks evs,
+      capture := optField cap, feed := optField feed })
+  | "nineval", [ks, vs, v] =>
+    let env := zipAssoc ks vs
+    showN (ninjaEval (fun k => (assocGet env k).getD []) (decodeStr v))
+  | "edge", [rks, rvs, vks, vvs, ins, outs, name] =>
+    -- statement-level bindings are evaluated when the statement is parsed (enclosing scope: empty)
+    let raw := zipAssoc vks vvs
+    match raw.mapM (fun kv => (fun v => (kv.1, v)) <$> ninjaEval (fun _ => []) kv.2) with
+    | .error e => showNErr e
+    | .ok vars =>
+      showN (edgeBinding { ruleBindings := zipAssoc rks rvs, vars := vars,
+                           ins := decList ins, outs := decList outs } (decodeStr name))
+  | "shsplit", [s] =>
+    match shSplit (decodeStr s) with
+    | .ok l => "ok:" ++ encList l
+    | .error e => showShErr e
+  | "shcmds", [s] =>
+    match shCommands (decodeStr s) with
+    | .ok ls => "ok:" ++ ";".intercalate (ls.map encList)
+    | .error e => showShErr e
+  | "bav", [s] => encList (buildargv (decodeStr s))
+  | "nshesc", [s] => encodeStr (ninjaShellEscape (decodeStr s))
+  | _, _ => "bad-op"
 
 end Driver.Quote
